@@ -14,7 +14,24 @@ mod wire;
 
 use std::io::{BufRead, Write};
 
+/// Enables everything and records nothing: with it every log statement of the library evaluates its arguments.
+struct AllOn;
+impl tracing::Subscriber for AllOn {
+    fn enabled(&self, _m: &tracing::Metadata<'_>) -> bool { true }
+    fn new_span(&self, _s: &tracing::span::Attributes<'_>) -> tracing::span::Id { tracing::span::Id::from_u64(1) }
+    fn record(&self, _s: &tracing::span::Id, _v: &tracing::span::Record<'_>) {}
+    fn record_follows_from(&self, _s: &tracing::span::Id, _f: &tracing::span::Id) {}
+    fn event(&self, e: &tracing::Event<'_>) {
+        // visit the fields, as a formatter would
+        struct V; impl tracing::field::Visit for V { fn record_debug(&mut self, _f: &tracing::field::Field, v: &dyn std::fmt::Debug) { let _ = format!("{:?}", v).len(); } }
+        e.record(&mut V);
+    }
+    fn enter(&self, _s: &tracing::span::Id) {}
+    fn exit(&self, _s: &tracing::span::Id) {}
+}
+
 fn main() {
+    if std::env::var("HARNESS_TRACE").is_ok() { let _ = tracing::subscriber::set_global_default(AllOn); }
     util::quiet_panics();
     let args: Vec<String> = std::env::args().collect();
     if args.len() < 2 { eprintln!("usage: harness <stream> [tier] [seed] | harness eval"); std::process::exit(2); }
